@@ -22,6 +22,9 @@ CHECKS = {
  "C08": ("E2-token", "exhaustive enumeration of five hostile-input families, each case executed on the real compiler in an isolated worker process with watchdog",
          "All token strings of length <=3 (thorough 4) over a 40-token alphabet in 3 placements; every byte prefix and every single-token edit (delete/duplicate/swap/replace/insert x 40 tokens) of 33 feature modules (+ real-world modules); multi-byte characters at every character position; every module left inside each kind of unterminated item; all functional reference graphs on 3 nodes over 8 edge kinds with/without a value; nesting depth 2^k for 15 bracket-like recursions; 16 unsupported notations x 10 positions and ~60 hostile one-liners (341 k inputs quick, ~9 M thorough), both backends; compile + Display + contextualize of every error/warning must return within 10 s without panic or process death.",
          "Worker isolation (8 MiB stack, 6 GiB address-space cap, 10 s watchdog) attributes a death or expiry to the single in-flight input. Arbitrary byte soup outside the token alphabet is covered only through the multi-byte and prefix families. 7 known-finding classes on the pinned tree (unbounded recursion, exponential parse time, one unreachable!).", "§4 C08"),
+ "C12": ("E3-history", "exhaustive enumeration of module sets, import digraphs and hand-over orders; differential joint vs. stand-alone compilation on the real compiler",
+         "2-module sets under all 8x8 tagging/extensibility default assignments x all import digraphs, 3-module sets with pairwise-distinct defaults x all 64 digraphs (cyclic included), 4-module ring/star/complete graphs (thorough); for each set every import-closed subset in every order as separate literals, once concatenated, with/without wildcard imports, with one duplicated source and with same-named definitions in all modules (29 k joint compilations thorough): each module's block must equal the block obtained with only its import closure; use lines, qualified references and imported-value constraints are compared with the model.",
+         "Name mangling reference for module/type/value names is the documented rule (also checked by C16). The backend object is driven through the public Compiler API only.", "§4 C12"),
  "C13": ("E2-token", "exhaustive single-boundary (and pairwise / all-at-once) separator substitution over tokenized base inputs, differential oracle on the real compiler",
          "For 33 feature modules covering every production of the grammar and the 12 (thorough 60) smallest real-world modules, every X.680 token boundary x 13 separator forms (whitespace kinds, CRLF, none where separable, all three comment forms incl. nested and hostile contents) is compiled and compared (Ok/Err class, warning count, syn projection minus docs) with the single-space base; thorough adds all boundaries at once and all adjacent pairs (81 k inputs). Deviation-2 findings are reported only when no single boundary explains them.",
          "The harness tokenizer (X.680 12) and the separability rule are trusted; production coverage is that of the base inputs. 16 boundary classes are known findings on the pinned tree (multi-word reserved sequences matched with one literal space, comments not skipped in headers / EXPORTS / OID values / object assignments).", "§4 C13"),
